@@ -592,9 +592,15 @@ class StreamReader:
             chunk_splits.popleft()
 
         # Tested empty-first so a limit of 0 cannot leave reading paused for good.
-        if (not self._size or self._size < self._low_water) and (
-            self._http_chunk_splits is None
-            or len(self._http_chunk_splits) < self._low_water_chunks
+        # After EOF any pause was requested by a later message's stream: reading
+        # this one must not restart the parser on its behalf.
+        if (
+            not self._eof
+            and (not self._size or self._size < self._low_water)
+            and (
+                self._http_chunk_splits is None
+                or len(self._http_chunk_splits) < self._low_water_chunks
+            )
         ):
             self._protocol.resume_reading()
         return data
